@@ -174,7 +174,7 @@ func runRedef(c *Ctx) {
 
 	// ---------------- R2: input-set provenance
 	n := 0
-	core.Instrs(res, func(in ssa.Instruction) {
+	p.RegionInstrs(res, func(in ssa.Instruction) {
 		mu, ok := in.(*ssa.MapUpdate)
 		if !ok {
 			return
